@@ -335,6 +335,8 @@ def h_real(t, part):
                 buf.append(ent[1])
             elif ent[0] == 'ended':
                 ended = True
+            elif ent[0] == 'reconnected':
+                buf, ended = [], False          # a new connection starts with an empty buffer
             elif ent[0] == 'api':
                 _, tag, how, val = ent
                 if tag == 'receive':
@@ -346,6 +348,8 @@ def h_real(t, part):
                 elif tag == 'call':
                     want = ('raised', 'DisconnectedError') if ended else ('returned', ['pong', 1])
                     got = (how, list(val) if how == 'returned' and isinstance(val, (list, tuple)) else val)
+                elif tag == 'connect':
+                    want, got = ('returned', None), (how, val)
                 else:       # disconnect()
                     want, got = ('returned', None), (how, val)
                     ended = True
